@@ -547,6 +547,28 @@ class C13(DiffProperty):
                     l = max(0, l - 2) if o[0] in ("drecv", "dadv", "dshift") else l  # approximate
                 ops += o
             cases.append(" ".join([str(mx), str(off), hx(c)] + ops))
+        # LARGE rings: mpt_memrev only swaps blocks (mpt_memswap) when BOTH parts of the wrapped data exceed its 1024 byte
+        # buffer, and takes its second branch when only the upper part fits; rings of up to a few hundred bytes never get there
+        for i in range(60 if quick else 600):
+            mx = rng.choice([2100, 2560, 3000, 4100, 5000])
+            kind = i % 6
+            if kind == 0:      # both parts > 1024, lower part smaller
+                off = mx - rng.randrange(1030, 1060); ln = rng.randrange(min(mx, (mx - off) + 1030), mx + 1)
+            elif kind == 1:    # both parts > 1024, upper part smaller
+                off = rng.randrange(1030, 1100); ln = mx - rng.randrange(0, 3)
+            elif kind == 2:    # part up to the ring end > 1024, wrapped part small
+                off = mx - rng.randrange(1030, 1500); ln = (mx - off) + rng.randrange(1, 1024)
+            elif kind == 3:    # part up to the ring end small, wrapped part > 1024
+                off = mx - rng.randrange(1, 1000); ln = (mx - off) + rng.randrange(1030, 1090)
+            elif kind == 4:    # equal parts
+                off = mx // 2; ln = mx if mx % 2 == 0 else mx - 1
+            else:
+                off = rng.randrange(0, mx + 1); ln = rng.randrange(0, mx + 1)
+            ln = max(0, min(ln, mx))
+            ops = [["align", "0"], ["align", str(rng.randrange(0, mx + 1))], ["resize", str(mx + rng.choice([1, 64, 1024]))],
+                   ["prepare", str(mx - ln + rng.choice([1, 100]))]][rng.randrange(4)]
+            ops = ops + ["get", "0", "8", "get", str(max(0, ln - 8)), "8", "align", "0"]
+            cases.append(" ".join([str(mx), str(off % (mx + 1)), hx(rbytes(rng, ln))] + ops))
         # messages through encode_queue(COBS) -> decode_queue(COBS); both rings start empty at <off>
         for i in range(250 if quick else 5000):
             mx = rng.choice([1, 2, 3, 5, 8, 16, 17, 64, rng.randrange(1, 400)])
